@@ -12,7 +12,7 @@ RULE = ("simulated scenes that satisfy the premise by construction (asserted per
 ASSUMPTIONS = ["all keypoints visible (the premise is about separation and motion)", "a fresh Tracker per history",
                "absence length counted in non-empty frames (the tracker's fixed window only ages on tracked frames)"]
 SHARDS = {"quick": 4, "thorough": 16}
-N = {"quick": 2600, "thorough": 70000}
+N = {"quick": 2600, "thorough": 180000}
 BUDGET = {"quick": 110, "thorough": 1500}
 TIMEOUT = {"quick": 600, "thorough": 3000}
 SELF_SHARDED = True
